@@ -31,6 +31,10 @@ FilterClauses(e) ==
      \cup (IF e.rewriteUid # 0 /\ \E k \in DOMAIN e.calls : e.calls[k].uid # e.rewriteUid
            THEN {"C10.mapNotConsultedBeforeReport"} ELSE {})
      \cup (IF e.walkErr THEN {"C10.walkReturnedError"} ELSE {})
+     \* conformance of the algorithm-layer model FilterWalkMC (pattern lists enumerated by TLC on the model's own tree): the real
+     \* walk reports exactly what the ALGORITHM model reports - also where both depart from the reference (the recorded
+     \* matcher finding).  Not a verdict of a property: a disagreement without a violation makes the run inconclusive
+     \cup (IF "model" \in DOMAIN e /\ calls # [k \in DOMAIN e.model.alg |-> e.model.alg[k]] THEN {"MODEL.filterWalkOutputDiffers"} ELSE {})
 
 FollowJudge(e) ==
   LET T == [p \in PathsOf(e.tree) |-> At(e.tree, p)]
